@@ -287,10 +287,11 @@ func buildC11(tier string) sim.Scenario {
 			}
 			return true
 		}
+		var forged map[string]string // extra request headers of the next flvGet
 		flvGet := func(name, path, token string) (bool, int) {
 			cc := sw.httpConn(name, 1<<20)
 			defer cc.Close()
-			res, br := httpStart(cc, "GET", "/streams"+path+".flv?token="+token, nil, "")
+			res, br := httpStart(cc, "GET", "/streams"+path+".flv?token="+token, forged, "")
 			if res.Err != nil || res.Status != 200 {
 				return false, res.Status
 			}
@@ -357,7 +358,7 @@ func buildC11(tier string) sim.Scenario {
 			user := names[tp.Choose(len(names))]
 			u := users[user]
 			path := paths[tp.Choose(len(paths))]
-			kind := tp.Choose(13)
+			kind := tp.Choose(14)
 			// users whose password or existence changed need a fresh login; the old token keeps naming the user
 			tok := tokens[user][0]
 			switch kind {
@@ -646,6 +647,15 @@ func buildC11(tier string) sim.Scenario {
 				actl.Close()
 				vcl.close()
 				w.Sleep(time.Second)
+			case 13: // a caller with a valid token of its own names another user in the header the server uses internally
+				forged = map[string]string{"user_name_in_token": "admin", "User_name_in_token": "admin"}
+				got, st := flvGet(fmt.Sprintf("forged%d", q), path, tok)
+				forged = nil
+				if !verdict("http-flv(forged user header)", user, "pull", path, got, fmt.Sprintf("status %d", st)) {
+					return
+				}
+				res := sw.httpDo(fmt.Sprintf("forgedapi%d", q), "GET", "/api/v1/users?token="+tok, map[string]string{"user_name_in_token": "admin"}, "")
+				verdict("api-list-users(forged user header)", user, "manage", "/api/v1/users", res.Status == 200, fmt.Sprintf("status %d", res.Status))
 			default: // attacker: derive tokens from identifiers the server discloses to an unauthenticated client
 				cl := sw.rtspConnect(fmt.Sprintf("att%d", q), 64<<10)
 				m, err := cl.do("DESCRIBE", "rtsp://10.9.0.1:554/live/a", nil, "")
